@@ -869,6 +869,9 @@ void rs_verif_hook(unsigned point, const void *p, uint64_t a, uint64_t b)
 				struct shent *e = &lm->h[past - 1];
 				if(e->kind) {
 					vh_violation("C05", "rollback-target-splits-an-event", "LP %llu rollback target %u is not right after an event", (unsigned long long)(lp - lps), past);
+					/* the entry right below the target is a message sent by an event that lies in the undone part: it was not cancelled */
+					vh_violation("C06", "undone-send-not-cancelled", "LP %llu rollback to %u: history entry %u is a message (id %llu) sent by an event of the undone part, and it stays uncancelled",
+					    (unsigned long long)(lp - lps), past, past - 1, (unsigned long long)e->id);
 					return;
 				}
 				want_m = e->mdigest;
